@@ -154,7 +154,7 @@ func lxProjType(t *parser.Type) *lxPType {
 
 func lxProjVal(v *parser.ConstValue) *lxPVal {
 	if v == nil {
-		return nil
+		return &lxPVal{T: "none", L: []*lxPVal{}, M: [][]*lxPVal{}} // no null: TLC reads these records back
 	}
 	out := &lxPVal{L: []*lxPVal{}, M: [][]*lxPVal{}}
 	tv := v.TypedValue
@@ -536,6 +536,13 @@ func init() {
 			})
 			res["stage"] = stage
 			res["panic"] = lxShort(pan, 1500)
+			empty := lxProject(&parser.Thrift{})
+			for _, k := range []string{"p1", "p2"} {
+				if _, ok := res[k]; !ok {
+					res[k] = empty
+				}
+			}
+			res["acc"] = stage == "done" && pan == ""
 			return res, nil
 		})
 	}
